@@ -219,7 +219,7 @@ class mapper(object):
             elif isinstance(p, exp):
                 if p._is_def == 0:
                     # p is "bottom":
-                    p = mem(a, p.size, disp=cur)
+                    p = mem(a, p.size, disp=cur, endian=endian)
                 elif p.etype==et_ext and p._subrefs.get("mmio_r",None):
                     p = p.stub(self,mode="r")
             P.append(p)
